@@ -344,3 +344,37 @@ def rule_none_vs_zero(ctx):
     r.floor(n, 4, "linalg functions with optional numeric selection parameters")
     r.need_controls(1)
     return r
+
+
+def rule_return_arity(ctx):
+    r = RuleResult(
+        "return-arity",
+        "solvers with a `compute_uv` / `return_vecs` switch return either the values alone or the full tuple: a return written "
+        "`return U, s, VH if flag else s` parses as the 3-tuple (U, s, (VH if flag else s)) — detected structurally as a tuple "
+        "whose last element is a conditional expression that falls back to a name already present in the tuple",
+    )
+    n = 0
+    for modname in LINALG_MODULES:
+        mod = ctx.prog.modules.get(modname)
+        if mod is None:
+            continue
+        for f in mod.all_functions:
+            if f.is_alias or isinstance(f.node, ast.Lambda):
+                continue
+            if not ({"compute_uv", "return_vecs"} & set(f.params)):
+                continue
+            n += 1
+            bad = None
+            for rt in _own_walk(f.node):
+                if isinstance(rt, ast.Return) and isinstance(rt.value, ast.Tuple) and rt.value.elts and isinstance(rt.value.elts[-1], ast.IfExp):
+                    last = rt.value.elts[-1]
+                    others = {e.id for e in rt.value.elts[:-1] if isinstance(e, ast.Name)}
+                    if isinstance(last.orelse, ast.Name) and last.orelse.id in others:
+                        bad = rt
+            if bad is not None:
+                r.bad(Finding("return-arity", f.qualname, f"`{src_of(bad)}` returns a {len(bad.value.elts)}-tuple in both cases (the conditional binds only to the last element): "
+                              "with the switch off the caller receives a tuple instead of the values", where=f"{f.module.relpath}:{bad.lineno}", operand="tuple-conditional"))
+            else:
+                r.ok(f.qualname, nontrivial=False)
+    r.floor(n, 8, "solvers with a values-only switch")
+    return r
